@@ -149,9 +149,9 @@ func build(h uint32, items []item, nid int, cv *chainView, fork int) *builtBlock
 		switch it.K {
 		case "Reg":
 			p := producers[it.P]
-			su, amt := uint32(0), common.Fixed64(cfgMinDepositV1)*ELA
+			su, amt := uint32(0), common.Fixed64(cfgMinDepositV1+cfgRegExtra)*ELA
 			if it.P == "p3" {
-				su, amt = uint32(specSU), common.Fixed64(cfgMinDepositV2)*ELA
+				su, amt = uint32(specSU), common.Fixed64(cfgMinDepositV2+cfgRegExtra)*ELA
 			}
 			tx = txRegister(p, it.P+"-0", su, amt, salt)
 			after.su[it.P] = su
@@ -170,8 +170,8 @@ func build(h uint32, items []item, nid int, cv *chainView, fork int) *builtBlock
 		case "Act":
 			tx = txActivate(producers[it.P], salt)
 		case "Vote1":
-			tx = txVoteV1(voters[it.A], producers[it.P], cfgV1VoteAmount*ELA, salt)
-			e := utxoEnt{common2.OutPoint{TxID: tx.Hash(), Index: 0}, cfgV1VoteAmount * ELA}
+			tx = txVoteV1(voters[it.A], producers[it.P], salt)
+			e := utxoEnt{common2.OutPoint{TxID: tx.Hash(), Index: 0}, tx.Outputs()[0].Value}
 			after.v1[it.A] = e
 			globalRefs[e.op.ReferKey()] = *tx.Outputs()[0]
 		case "Unvote1":
